@@ -330,6 +330,8 @@ def t_space(acc, kind, space, shard, nshard, stride=1, offset=0, which=None, opt
             return
         if kind == 'dfa':
             gen = spaces.dfas(*space)
+        elif kind == 'dfafam':
+            gen = spaces.anchored_swap_family(*space)
         elif kind == 'pair':
             n1, n2, k = space
             size2 = spaces.dfa_size(n2, k)
@@ -349,7 +351,7 @@ def t_space(acc, kind, space, shard, nshard, stride=1, offset=0, which=None, opt
         for idx, spec in gen:
             if idx % stride != offset % stride or (idx // stride) % nshard != shard:
                 continue
-            if kind == 'dfa':
+            if kind in ('dfa', 'dfafam'):
                 check_dfa_ref(acc, spec, which or DFA_EX, *(opt or []))
             elif kind == 'pair':
                 check_dfa_pair(acc, spec[0], spec[1])
@@ -396,9 +398,12 @@ def plan(tier, seed):
         add('dfa', [2, 2], 2, opt=[sch, 4], stride=1 if not q else 2)
         add('dfa', [2, 1], 1, opt=[sch, 5])
     add('dfa', [1, 3], 1, opt=['s', 4, 'eps'])
+    add('dfafam', [10], 16, stride=4 if q else 1, which=['dfa-minimal', 'dfa-hopfcroft'], opt=['s', 3, 'w'])     # 13 pairwise distinguishable states
+    add('dfafam', [13], 16, stride=16 if q else 2, which=['dfa-minimal', 'dfa-hopfcroft'], opt=['q', 3, 'w'])    # 16 states
+    add('dfa', [2, 1], 1, opt=['n', 4], which=['dfa-for-language', 'dfa-complement', 'dfa-to-regexp'])
     add('dfa', [2, 3], 4, opt=['s', 3, 'eps'], stride=1 if not q else 4)
     add('dfa', [1, 5], 1, opt=['s', 2, 'w'], which=noreg)
-    add('dfa', [2, 5], 4, opt=['s', 2, 'w'], which=noreg, stride=8 if not q else 32)
+    add('dfa', [2, 5], 16, opt=['s', 2, 'w'], which=noreg, stride=16 if not q else 128)
     add('pair', [1, 1, 1], 1)
     add('pair', [2, 2, 1], 2)
     add('pair', [2, 1, 2], 1)
@@ -416,4 +421,4 @@ def plan(tier, seed):
         ' stride 1/2 (regexp exercise 1/8)' if q else '', ' (k=2 stride 1/4)' if q else '', ',<=4' if q else '', 16 if q else 2, 4 if q else 5)},
             'exhaustive': True,
             'rule': 'for every reference object: the answer is computed by notebooks/make_notebook.apply_command from a temp file exactly as the notebook generator does, and handed to the checker call of the template; the verdict line must be OK; non-trivial = reference with >= 2 states / transitions / a generated word',
-            'assumptions': ['instance preconditions decided by oracle code: alphabet without 0/1 for the regexp exercise, grammar expressible in the simple format and non-degenerate (every variable derives a non-empty word), CYK/derivation words non-empty', 'wave 5: DFA references with names q9/q10, substrings, non-decimal digits, start/start2, keywords in another case; alphabets {e,p,s} (words spell eps) and five letters']}
+            'assumptions': ['instance preconditions decided by oracle code: alphabet without 0/1 for the regexp exercise, grammar expressible in the simple format and non-degenerate (every variable derives a non-empty word), CYK/derivation words non-empty', 'wave 5: DFA references with names q9/q10, substrings, non-decimal digits, start/start2, keywords in another case; alphabets {e,p,s} (words spell eps) and five letters', 'wave 6: the anchored-swap family (13 and 16 pairwise distinguishable states over four letters) as references of the minimisation exercises']}
